@@ -255,17 +255,26 @@ def main(argv):
         if kind == "dictview": return dict.fromkeys(ks).keys()
         if kind == "iterator": return iter(list(ks))
         if kind == "generator": return (k for k in ks)
-    keysets = [["a"], ["a", "b", "c"], ["a", "missing", "c"], [b"a", "b"], ["k%d" % i for i in range(40)], ["missing1", "missing2"]]
+        if kind == "map": return map(lambda k: k, ks)
+    keysets = [["a"], ["a", "b", "c"], ["a", "missing", "c"], [b"a", "b"], ["k%d" % i for i in range(40)], ["missing1", "missing2"],
+               # a key named more than once (also before later keys, also an absent one), and one key in both spellings
+               ["a", "a", "b"], ["missing", "missing", "a", "b"], ["b", "a", "b", "c", "a"], ["a", b"a", "c"], [b"c", "a", "c", "b"]]
+    from pymemcache.client.base import PooledClient as _Pooled
     for pfx in (b"", b"pre:"):
         for ks in keysets:
-            for kind in ("list", "tuple", "set", "dictview", "iterator", "generator"):
+            for kind in ("list", "tuple", "set", "dictview", "iterator", "generator", "pooled-list", "pooled-iterator", "pooled-generator", "pooled-map"):
+                dup = len({(k.encode() if isinstance(k, str) else k) for k in ks}) != len(ks)
+                if dup and kind in ("set", "dictview"):
+                    continue          # (those collections cannot hold a key twice)
                 for op in ("get_many", "gets_many"):
                     srv, world, c = mk(pfx=pfx)
+                    if kind.startswith("pooled"):
+                        c = _Pooled(("h", 1), socket_module=FakeSocketModule(world), key_prefix=pfx, default_noreply=False, max_pool_size=2)
                     present = [k for k in ks if "missing" not in str(k)]
                     for k in present:
                         c.set(k, b"val-" + (k.encode() if isinstance(k, str) else k), noreply=False)
                     try:
-                        r = getattr(c, op)(gen_keys(kind, ks))
+                        r = getattr(c, op)(gen_keys(kind.replace("pooled-", ""), ks))
                         err = None
                     except Exception as e:
                         r, err = None, type(e).__name__
@@ -274,10 +283,15 @@ def main(argv):
                     case = {"op": op, "collection": kind, "keys": repr(ks)[:80], "prefix": hx(pfx)}
                     tags = ["op:" + op, "collection:" + kind]
                     want = {k: b"val-" + (k.encode() if isinstance(k, str) else k) for k in present}
+                    mixed_spelling = len({(k.encode() if isinstance(k, str) else k) for k in present}) != len(set(present))
                     if err is not None:
                         ctx.violation("multi-key fetch raised for a legal key collection", dict(case, error=err), tags=tags)
                     else:
                         got = {k: (v[0] if op == "gets_many" else v) for k, v in r.items()}
+                        if mixed_spelling:
+                            # one memcached key given as str and as bytes: either spelling may name it in the result; its value must be its own
+                            got = {(k.encode() if isinstance(k, str) else k): v for k, v in got.items()}
+                            want = {(k.encode() if isinstance(k, str) else k): v for k, v in want.items()}
                         if got != want or any(type(k) is not type(k0) for k, k0 in zip(sorted(map(repr, got)), sorted(map(repr, want)))):
                             ctx.violation("multi-key fetch did not return every present key exactly once under the caller's key with its own value",
                                           dict(case, got=repr(got)[:120]), tags=tags)
